@@ -78,6 +78,8 @@ def make_ctx(fam, seed):
     from renormalizer.utils import Quantity
     c = Ctx()
     c.fam = fam
+    loaded = fam.endswith("-loaded")
+    fam = fam.replace("-loaded", "")
     if fam == "holstein":
         model = holstein_model()
         c.model = model
@@ -103,6 +105,24 @@ def make_ctx(fam, seed):
     # abort on over-complete bonds (a C09 finding).  `x` keeps its over-complete bonds.  Snapshots are taken afterwards.
     c.a.canonicalise()
     c.a.canonicalise()
+    if loaded:
+        # the state under test went through dump + load (a complex state with a complex prefactor): a loaded object must behave
+        # like any other object in every program below
+        import os
+        import shutil
+        import tempfile
+        a = c.a.to_complex()
+        a = a.scale(np.exp(0.3j))
+        a.coeff = np.exp(-0.2j) * 0.9
+        d = tempfile.mkdtemp(prefix="c13l_")
+        try:
+            fn = os.path.join(d, "a.npz")
+            a.dump(fn)
+            c.a = type(a).load(c.model, fn)
+        finally:
+            shutil.rmtree(d, ignore_errors=True)
+        c.a.compress_config = a.compress_config.copy()
+        c.a.evolve_config = a.evolve_config.copy()
     return c
 
 
@@ -457,15 +477,15 @@ def mutations():
 
 
 def cases(tier, seed):
-    fams = ["eph", "holstein"] if tier == "quick" else ["eph", "holstein", "elec", "two"]
+    fams = ["eph", "holstein", "holstein-loaded"] if tier == "quick" else ["eph", "holstein", "holstein-loaded", "eph-loaded", "elec", "two"]
     for fam in fams:
-        D = derivations(fam)
+        D = derivations(fam.replace("-loaded", ""))
         names = list(D)
         producing2 = STATE_PRODUCING_QUICK if tier == "quick" else [n for n in names if not n.startswith(("s.expect", "s.e_occ", "s.ph_occ", "s.calc", "s.dist", "x.dist", "s.dot", "s.angle", "s.norm", "s.todense"))]
         for m in names:
             yield {"fam": fam, "m": m, "m2": None}
             for m2 in producing2:
-                if tier == "quick" and fam == "holstein" and not (m.startswith("evolve_exact") or m2.startswith("evolve_exact")):
+                if tier == "quick" and fam.startswith("holstein") and not (m.startswith("evolve_exact") or m2.startswith("evolve_exact")):
                     continue   # quick: the HolsteinModel family only covers what needs it; the generic family covers the rest
                 if m2 in D:
                     yield {"fam": fam, "m": m, "m2": m2}
@@ -615,7 +635,7 @@ def run_program(fam, seed, m, m2, D, MU):
 
 def run_case(desc, seed):
     fam, m, m2 = desc["fam"], desc["m"], desc["m2"]
-    D = tree_derivations() if fam.startswith("tree:") else derivations(fam)
+    D = tree_derivations() if fam.startswith("tree:") else derivations(fam.replace("-loaded", ""))
     MU = tree_mutations() if fam.startswith("tree:") else mutations()
     viol = {}
     status, v, maxbond, nmut = run_program(fam, seed, m, m2, D, MU)
